@@ -194,6 +194,9 @@ pub fn check(scn: &Scenario, stats: &mut Stats) -> Vec<Violation> {
             }
         }
         for (_, o) in &coded {
+            if std::env::var("VERIF_DEBUG_SIG").is_ok() {
+                eprintln!("SIG {:?} draws={}", o.sig, o.entropy_draws);
+            }
             let sig = mix(&[wh, hash_str(&format!("{:?}", o.sig))]);
             stats.signatures.insert(sig);
         }
